@@ -75,6 +75,13 @@ func (mergeEngine) Gen(t *rapid.T, tier string) any {
 			CreatedAt: int64(rapid.IntRange(1, 6).Draw(t, "created_at")), Content: fmt.Sprintf("m%d", i)})
 	}
 	nch := rapid.IntRange(2, 4).Draw(t, "nchildren")
+	// now and then a wide merge (the property speaks of every number of
+	// children): children beyond the fourth are cheap copies, see below
+	wide := 0
+	if rapid.IntRange(0, 24).Draw(t, "wide") == 0 {
+		wide = rapid.SampledFrom([]int{9, 17, 33, 65, 67}).Draw(t, "width")
+		nch = 4
+	}
 	maxOps := 7
 	if tier == "thorough" {
 		maxOps = 12
@@ -202,6 +209,22 @@ func (mergeEngine) Gen(t *rapid.T, tier string) any {
 		}
 		for q := 0; q < nCnt; q++ {
 			ch.Counts = append(ch.Counts, rapid.IntRange(0, 5).Draw(t, "count"))
+		}
+		c.Children = append(c.Children, ch)
+	}
+	for ci := nch; ci < wide; ci++ {
+		// same verdicts and counts as child ci%4, and of its stream only how each
+		// stored phase ends
+		src := c.Children[ci%4]
+		ch := mChild{Style: src.Style, OKs: append([]int(nil), src.OKs...), Counts: append([]int(nil), src.Counts...)}
+		for _, em := range src.Reqs {
+			var cp []mEmit
+			for _, e := range em {
+				if e.Kind == "eose" || e.Kind == "closed" {
+					cp = append(cp, e)
+				}
+			}
+			ch.Reqs = append(ch.Reqs, cp)
 		}
 		c.Children = append(c.Children, ch)
 	}
